@@ -55,7 +55,11 @@ func main() {
 	}
 
 	if *doSelftest {
-		os.Exit(selftest(*repo, *controls, *known))
+		var only []string
+		if *prop != "" && *prop != "all" {
+			only = strings.Split(*prop, ",")
+		}
+		os.Exit(selftest(*repo, *controls, *known, only))
 	}
 
 	exit := 0
